@@ -90,6 +90,18 @@ func suiteHash(c *ctx) {
 			ps := p.scriptGrouped()
 			addPres("permuted-indexes", ps, whole(ps), plain)
 		}
+		// the same indexes written as inline KEY / UNIQUE KEY of CREATE TABLE (MySQL)
+		if dialect == "mysql" {
+			z := cfg.newSqlize()
+			h := guard(func() string {
+				if err := z.FromString(plain.scriptInlineKeys(base)); err != nil {
+					return "error:" + firstLine(err.Error())
+				}
+				return fmt.Sprint(z.HashValue())
+			})
+			pres = append(pres, L("pres", q("inline-keys"), stmtsSexp(base), q(h)))
+			c.count("pres_inline-keys")
+		}
 		// detour: an extra column / index / table is created and dropped again
 		{
 			d := append([]Stmt{}, base...)
